@@ -188,6 +188,7 @@ def _run_tape(tape, stack):
             run.probe('two_placed_preemptions')
         svc_b = R.Service(spec, env_b, recorder, thread_factory=R.sim_thread_factory(sim))
         run.probe('threaded_program')
+        env_b.on_body_done = lambda: sim.mark('body_done')
 
         def main():
             out = outcome_of(svc_b.invoke)
@@ -207,6 +208,7 @@ def _run_tape(tape, stack):
         run.config['line_points'] = sim.line_points
         if sim.point_owner is not None:
             run.config['point_owner'] = list(sim.point_owner)
+            run.config['body_done_at'] = sim.marks.get('body_done')
         run.nontrivial = bool(run.faults) or sim.switches > 2
     else:
         svc_b = R.Service(spec, env_b, recorder, thread_factory=R.inline_thread_factory)
@@ -369,16 +371,33 @@ def run_index(i, seed, tier, emit):
         owner = r3.config.get('point_owner') or []
         n3 = len(owner)
         firsts = [k for k in range(n3) if owner[k] != 0]
-        budget = 400 if tier == 'quick' else 6000
+        budget = 600 if tier == 'quick' else 6000
         if firsts and n3:
             tail = list(d3.used[11:16])
             per_first = max(1, budget // len(firsts))
             for k in firsts:
-                rest = n3 - k + 40
+                # first the run with pre-emption #1 alone tells where, in that execution, the operation body ended: the
+                # points after it are the recorder's finalisation, where a worker still in flight matters most
+                t1 = Tape(seed, prefix=[0, 0, 0, 0, 0, 2, 0, 2, k, 0, 2] + tail + [1 << 19, 0])
+                r1 = safe_run_tape(mod, t1)
+                emit(r1, t1)
+                n1 = len(r1.config.get('point_owner') or [])
+                done_at = r1.config.get('body_done_at')
+                if done_at is None or done_at <= k:
+                    lo = k + 1
+                else:
+                    lo = done_at
+                rest = max(1, n1 - lo)
                 stride2 = max(1, rest // per_first)
-                for m in range(k + 1, k + 1 + rest, stride2):
+                for m in range(lo, n1, stride2):
                     tt = Tape(seed, prefix=[0, 0, 0, 0, 0, 2, 0, 2, k, 0, 2] + tail + [m, 0])
                     emit(safe_run_tape(mod, tt), tt)
+                if tier != 'quick' and lo > k + 1:
+                    # thorough: also the points between pre-emption #1 and the end of the body, at a stride
+                    early = lo - k - 1
+                    for m in range(k + 1, lo, max(1, early // max(1, per_first // 2))):
+                        tt = Tape(seed, prefix=[0, 0, 0, 0, 0, 2, 0, 2, k, 0, 2] + tail + [m, 0])
+                        emit(safe_run_tape(mod, tt), tt)
         # random pre-emption with random faults
         for n in range(20 if tier == 'quick' else 80):
             tt = Tape(hash((seed, n)) & 0xffffffffffff, prefix=[n % 3, (n * 7919) % 4096, (n * 31) % 64, 0, 0, 2, 1 + n % 3, 0])
